@@ -76,12 +76,13 @@ def _callables() -> list:
     """Reference functions of a few callable signatures (vp.ty.callsig_function): members of their own callable type,
     definite non-members of every signature that permits a call they do not run."""
     sigs = [
-        (),
+        (),  # one signature per parameter kind, then one with a default and one with two parameters
+        (("a", ty.PO, False, "int"),),
         (("a", ty.PK, False, "int"),),
-        (("a", ty.PO, True, "str"), ("kw", ty.VK, False, "int")),
-        (("a", ty.PK, True, "str"), ("kw", ty.VK, False, "int")),
         (("a", ty.KO, False, "str"),),
-        (("args", ty.VA, False, "int"), ("kw", ty.VK, False, "int")),
+        (("args", ty.VA, False, "int"),),
+        (("kw", ty.VK, False, "str"),),
+        (("a", ty.PK, True, "int"),),
         (("a", ty.PK, False, "int"), ("b", ty.PK, True, "str")),
     ]
     return [Item(f"<def ({ty.callsig_params_text(ps)}) -> None>", ty.callsig_function(ps)) for ps in sigs]
